@@ -135,7 +135,8 @@ SimNext == \/ MintSim
 MCSimSpec == Init /\ TrunkStored /\ hist = <<>> /\ [][SimNext /\ hist' = IF last'.k \in {"ProcessHeader", "ProcessBlock", "Reopen", "SyncHeaders", "Compact", "ResetHead", "Probe"}
                      THEN Append(hist, [k |-> last'.k, b |-> last'.b, res |-> last'.res, proj |-> Proj(n'),
                                         cnt |-> IF last'.k = "SyncHeaders" THEN last'.cnt ELSE 0,
-                                        uat |-> IF last'.k = "Probe" THEN UnspentAt(last'.b) ELSE {}])
+                                        uat |-> IF last'.k = "Probe" THEN UnspentAt(last'.b) ELSE {},
+                                        notes |-> IF last'.k = "ProcessBlock" THEN last'.notes ELSE <<>>])
                      ELSE hist]_mcvars
 
 MCInit == Init /\ hist = <<>>
@@ -148,7 +149,8 @@ MCNext == /\ Next
           /\ hist' = IF last'.k \in {"ProcessHeader", "ProcessBlock", "Reopen", "SyncHeaders", "Compact", "ResetHead", "Probe"}
                      THEN Append(hist, [k |-> last'.k, b |-> last'.b, res |-> last'.res, proj |-> Proj(n'),
                                         cnt |-> IF last'.k = "SyncHeaders" THEN last'.cnt ELSE 0,
-                                        uat |-> IF last'.k = "Probe" THEN UnspentAt(last'.b) ELSE {}])
+                                        uat |-> IF last'.k = "Probe" THEN UnspentAt(last'.b) ELSE {},
+                                        notes |-> IF last'.k = "ProcessBlock" THEN last'.notes ELSE <<>>])
                      ELSE hist
 MCSpec == MCInit /\ [][MCNext]_mcvars
 
